@@ -74,6 +74,7 @@ class System:
         ops += [('insert', 0, 'str', '{{c}}'), ('insert', n, 'obj', '{{c}}')]
         for how in ('str', 'obj'):
             ops += [('remove', how, g) for g in POOL]
+        ops += [('remove_elem', i) for i in range(n)]
         ops += [('pop',)] + [('pop', i) for i in range(-n - 1, n + 2)]
         ops += [('reverse',), ('clear',)]
         ops += [('get', i) for i in range(-n - 1, n + 2)]
@@ -104,6 +105,9 @@ class System:
                 return ('none',)
             if k == 'remove':
                 m.remove(op[2])
+                return ('none',)
+            if k == 'remove_elem':
+                m.remove(m[op[1]])          # list.remove takes out the FIRST element equal to the argument
                 return ('none',)
             if k == 'pop':
                 return ('grp', m.pop(*op[1:]))
@@ -157,6 +161,8 @@ class System:
                 r = a.insert(op[1], self.group(op[2], op[3]))
             elif k == 'remove':
                 r = a.remove(self.group(op[1], op[2]))
+            elif k == 'remove_elem':
+                r = a.remove(a[op[1]])
             elif k == 'pop':
                 r = a.pop(*op[1:])
             elif k == 'reverse':
